@@ -496,4 +496,88 @@ def fancySet3 (a : List (List (List β))) (loc : List (Int × Int × Int)) (v : 
 /-- a 2-D nested list `(r, c)` filled with `x` (`np.ones((r, c), dtype=int)` for `x = 1`) -/
 def full2L (r c : Int) (x : β) : List (List β) := List.replicate r.toNat (List.replicate c.toNat x)
 
+/-! ### vocabulary of the translated `ADD.concatenate` (`GenD.add_concatenate`) -/
+
+/-- `np.pad(a, [(0, 0), (0, k), …], constant_values=x)`: every level (first axis) gets `k` more entries `x` on the node axis -/
+def padNodeAxis (a : List (List β)) (k : Int) (x : β) : List (List β) := a.map (fun lv => lv ++ List.replicate k.toNat x)
+/-- `a[idx, selector, :] = v`: in level `idx`, every node whose selector entry is true gets all its entries set to `v` -/
+def setRowsWhere (a : List (List (List Int))) (idx : Int) (selector : List Bool) (v : Int) : List (List (List Int)) :=
+  match pyIdx a.length idx with
+  | some k => a.set k (List.zipWith (fun (nd : List Int) (b : Bool) => if b then nd.map (fun _ => v) else nd) (a.getD k []) selector)
+  | none => a
+
+/-! ### vocabulary of the translated `ADD.stack` (`GenD.add_stack`) -/
+
+/-- `np.cumsum` of an integer list -/
+def cumsumI (l : List Int) : List Int := (l.foldl (fun (st : Int × List Int) x => (st.1 + x, st.2 ++ [st.1 + x])) ((0 : Int), [])).2
+/-- a slice bound `b ** e` with integer operands: a negative exponent yields a float, which a slice rejects (TypeError) -/
+def powBound (b e : Int) : Except String Int := if e < 0 then .error "TypeError" else .ok (b ^ e.toNat)
+/-- `row[:stop] = vals` (`stop ≥ 0`), NumPy's rule: the value list must be as long as the slice (`min stop len`) or have length 1 (broadcast), else ValueError -/
+def assignPrefix (row : List β) (stop : Int) (vals : List β) : Except String (List β) :=
+  let n := min stop.toNat row.length
+  if vals.length = n then .ok (vals ++ row.drop n)
+  else match vals with
+    | [x] => .ok (List.replicate n x ++ row.drop n)
+    | _ => .error "ValueError"
+/-- `a[i, :stop] = vals` on a 2-D array -/
+def assignRowPrefix (a : List (List β)) (i stop : Int) (vals : List β) : Except String (List (List β)) :=
+  match pyIdx a.length i with
+  | none => .error "IndexError"
+  | some k => do
+    let r ← assignPrefix (a.getD k []) stop vals
+    pure (a.set k r)
+/-- `a[i, :stop, c] = vals` on a 3-D array whose last axis has `ncol` entries (indices are checked before the shapes are compared) -/
+def assignColPrefix (a : List (List (List β))) (ncol i stop c : Int) (vals : List β) : Except String (List (List (List β))) :=
+  match pyIdx a.length i, pyIdx ncol.toNat c with
+  | some k, some cc =>
+    let lv := a.getD k []
+    let n := min stop.toNat lv.length
+    if vals.length = n then .ok (a.set k (List.zipWith (fun (nd : List β) v => nd.set cc v) (lv.take n) vals ++ lv.drop n))
+    else match vals with
+      | [x] => .ok (a.set k ((lv.take n).map (fun (nd : List β) => nd.set cc x) ++ lv.drop n))
+      | _ => .error "ValueError"
+  | _, _ => .error "IndexError"
+/-- `np.concatenate(blocks, axis=1, out=a[start:])` (`start ≥ 0`): the blocks side by side on the second axis, written over the rows `start…` of `a`; ValueError unless there is a
+block, every block has exactly `len(a) - start` rows, the row widths add up to the width of `a`, and the trailing shape of every entry agrees (`okEntry`) -/
+def concatAxis1Into (okEntry : β → Bool) (a : List (List β)) (start : Int) (blocks : List (List (List β))) : Except String (List (List β)) :=
+  let s := min start.toNat a.length
+  let rows := a.length - s
+  if !blocks.isEmpty && blocks.all (fun b => b.length == rows && b.all (fun r => r.all okEntry))
+      && (List.range rows).all (fun i => (blocks.map (fun b => (b.getD i []).length)).sum == (a.getD (s + i) []).length) then
+    .ok (a.take s ++ (List.range rows).map (fun i => (blocks.map (fun b => b.getD i [])).flatten))
+  else .error "ValueError"
+/-- `a + k` for a 3-D integer array and a scalar -/
+def addAll3 (a : List (List (List Int))) (k : Int) : List (List (List Int)) := a.map (fun lv => lv.map (fun nd => nd.map (fun x => x + k)))
+
+/-! ### vocabulary of the translated `ADD.get_update_location` (`GenD.add_get_update_location`) -/
+
+/-- `l[i]` (a Python list, or the first axis of an array) with the index checked: IndexError when out of range -/
+def getE (l : List β) (i : Int) : Except String β :=
+  match pyIdx l.length i with
+  | some k => (match l[k]? with | some x => pure x | none => throw "IndexError")
+  | none => throw "IndexError"
+/-- a Python `set` of integers, kept as the sorted duplicate-free list of its members (the iteration order of a real `set` is CPython's hash order, which no caller of the
+translated code depends on) -/
+def pySet (l : List Int) : List Int := (l.mergeSort (fun a b => decide (a ≤ b))).eraseDups
+/-- `row.nonzero()[0].tolist()`: the positions of the non-zero entries -/
+def nonzeroIdx (row : List Int) : List Int := ((enumerateFrom (0 : Int) row).filter (fun ix => ix.2 != 0)).map (fun ix => ix.1)
+/-- `a[i, js].flatten()` for a 3-D array and a list of positions on the second axis -/
+def rowsFlatE (a : List (List (List β))) (i : Int) (js : List Int) : Except String (List β) := do
+  let lv ← getE a i
+  let rows ← js.mapM (fun j => getE lv j)
+  pure rows.flatten
+/-- `a[i, js, c].flatten()` for a 3-D array whose last axis has `ncol` entries (the scalar indices are checked even when `js` is empty) -/
+def colsE (a : List (List (List β))) (ncol i : Int) (js : List Int) (c : Int) : Except String (List β) := do
+  let lv ← getE a i
+  match pyIdx ncol.toNat c with
+  | none => throw "IndexError"
+  | some cc => js.mapM (fun j => do
+      let nd ← getE lv j
+      match nd[cc]? with | some x => pure x | none => throw "IndexError")
+/-- a `while cond: body` loop that provably ends within `fuel` iterations (here: the index it advances runs off a list, which raises IndexError, before the fuel is used up) -/
+def whileFuel {σ : Type} : Nat → σ → (σ → Except String Bool) → (σ → Except String σ) → Except String σ
+  | 0, _, _, _ => throw "IndexError"
+  | n + 1, s, cond, body => do
+    if (← cond s) then whileFuel n (← body s) cond body else pure s
+
 end Np
